@@ -1089,8 +1089,7 @@ class TLSRecordLayer(object):
                 # (errors while sending application data are handled by
                 # writeAsync, nothing else closes the connection for
                 # post-handshake control messages)
-                if msg.contentType in (ContentType.handshake,
-                                       ContentType.heartbeat):
+                if msg.contentType == ContentType.handshake:
                     self._shutdown(False)
                 raise
 
@@ -1510,9 +1509,15 @@ class TLSRecordLayer(object):
         heartbeat_request = Heartbeat().create(
             HeartbeatMessageType.heartbeat_request, payload, padding_length)
 
-        for result in self._sendMsg(heartbeat_request,
-                                    randomizeFirstBlock=False):
-            yield result
+        try:
+            for result in self._sendMsg(heartbeat_request,
+                                        randomizeFirstBlock=False):
+                yield result
+        except socket.error:
+            # nothing else closes the connection when the request
+            # can't be sent
+            self._shutdown(False)
+            raise
 
     def send_heartbeat_request(self, payload, padding_length):
         """Synchronous version of write_heartbeat function.
